@@ -7,6 +7,8 @@ import (
 	"github.com/pkg/errors"
 
 	cmtrpctypes "github.com/cometbft/cometbft/rpc/core/types"
+
+	"github.com/EscanBE/evermint/v12/verifhook"
 )
 
 type UnsubscribeFunc func()
@@ -60,6 +62,7 @@ func (m *memEventBus) AddTopic(name string, src <-chan cmtrpctypes.ResultEvent) 
 		return errors.New("topic already registered")
 	}
 
+	verifhook.At("pubsub.AddTopic.betweenCheckAndAdd")
 	m.topicsMux.Lock()
 	m.topics[name] = src
 	m.topicsMux.Unlock()
@@ -85,6 +88,7 @@ func (m *memEventBus) Subscribe(name string) (<-chan cmtrpctypes.ResultEvent, Un
 	}
 
 	ch := make(chan cmtrpctypes.ResultEvent)
+	verifhook.At("pubsub.Subscribe.beforeLock")
 	m.subscribersMux.Lock()
 	defer m.subscribersMux.Unlock()
 
@@ -113,6 +117,7 @@ func (m *memEventBus) publishTopic(name string, src <-chan cmtrpctypes.ResultEve
 			m.topicsMux.Unlock()
 			return
 		}
+		verifhook.At("pubsub.publishTopic.beforeFanout")
 		m.publishAllSubscribers(name, msg)
 	}
 }
